@@ -32,6 +32,11 @@ CHECKS = {
             "oracle and value; the model is tied to the code by replaying random histories with recording checkers on both sides and by the generated Format "
             "validator row.  The built-in uuid/date-time acceptance claim is about uuid.UUID and dateutil (third-party, not modelled): enumerated as a test.",
             "registry full; built-ins partial (test only; finding C16-K7 recorded)"),
+    "C18": ("Coq theorem about custom_repr_args over ANY attribute valuation and value domain (arguments bind back through the signature to ==-equal attributes; a keyword is printed iff it differs from its default), instantiated on the signatures regenerated from /repo + vm_compute correspondence of repr shapes + eval(repr(x)) oracle",
+            "C18_roundtrip/C18_minimal are proved for every constructor signature the translator reads from /repo (13 classes incl. the property wrapper) and every "
+            "attribute valuation; C18_signature_shapes is the premise on the code (re-proved by computation each run).  The tie: repr shapes of random DSL trees "
+            "computed by Repr.repr_shape in Coq vs the text repr() prints, and eval(repr(x)) == x on every element/property object.",
+            "full on the model of the mechanism; literal printing is Python's own repr (trusted)"),
 }
 
 REASONS_PENDING = "check under construction in this session: not yet claimed"
